@@ -104,3 +104,139 @@ def install(reg: Registry):
                      ensures=gas_ensures, modifies=LIST_ARRAYS + ('cls', 'own_obj'), allocates=True,
                      loops={0: LoopSpec(gas_inv_outer), 1: LoopSpec(gas_inv_inner)},
                      call_lemmas={'is_node_traversable_by_attacker': trav_hint}, props=('C12',)))
+
+
+def install_more(reg: Registry):
+    from pyvc.theory import H
+    # ---- update_attack_surface_add_nodes
+    def upd_requires(c):
+        h, G = c.old, c.G
+        S, Nl = c.current_attack_surface, c.nodes
+        x = A('x!u')
+        return [('wf.' + nm, f) for nm, f in wf_graph(h, G, parts=('W0', 'W3'))] + [
+            ('attacker-in-G', is_att(h, G, c.attacker)),
+            ('nodes-in-G', FA([x], z3.Implies(h.cnt(Nl, x) > 0, is_node(h, G, x)), [h.cnt(Nl, x)])),
+            ('surface-unowned', h.own_obj(S) == -1),            # the list handed in is not graph state
+            ('surface-not-nodes', S != Nl),
+            ('surface-elems', FA([z3.Const('v!u', Val)], z3.And(h.bag(S, z3.Const('v!u', Val)) >= 0,
+                                 z3.Implies(h.bag(S, z3.Const('v!u', Val)) > 0, is_VRef(z3.Const('v!u', Val)))), [h.bag(S, z3.Const('v!u', Val))])),
+        ]
+
+    def upd_member(h0, S0bag, done_r, a, x, done_c=None):
+        r = A('r!u')
+        parts = [z3.Exists([r], z3.And(z3.Select(done_r, VRef(r)) > 0, ch(h0, r, x) > 0))]
+        if done_c is not None:
+            parts.append(z3.Select(done_c, VRef(x)) > 0)
+        return z3.Or(z3.Select(S0bag, VRef(x)) > 0, z3.And(z3.Or(*parts), trav(h0, x, a)))
+
+    def upd_inv(inner):
+        def inv(c: LCtx):
+            o, h = c.old, c.h
+            S = c.current_attack_surface
+            x = A('x!ui')
+            v = z3.Const('v!ui', Val)
+            dr = c.outer.done if inner else c.done
+            dc = c.done if inner else None
+            return [
+                ('alias', c.ret().t == S),
+                ('frame', lists_unchanged_except(o, h, [S])),
+                ('members', FA([x], (h.cnt(S, x) > 0) == upd_member(o, o.bagof(S), dr, c.attacker, x, dc), [h.cnt(S, x)])),
+                ('nodup', z3.Implies(FA([x], o.cnt(S, x) <= 1, [o.cnt(S, x)]), FA([x], h.cnt(S, x) <= 1, [h.cnt(S, x)]))),
+                ('elems', FA([v], z3.And(h.bag(S, v) >= 0, z3.Implies(h.bag(S, v) > 0, is_VRef(v))), [h.bag(S, v)])),
+            ]
+        return inv
+
+    def upd_ensures(c):
+        o, h = c.old, c.h
+        S, Nl, a = c.current_attack_surface, c.nodes, c.attacker
+        x, r = A('x!ue'), A('r!ue')
+        return [
+            ('returns-its-argument', c.res == S),
+            ('frame', lists_unchanged_except(o, h, [S])),
+            ('members', FA([x], (h.cnt(S, x) > 0) == z3.Or(o.cnt(S, x) > 0, z3.And(
+                z3.Exists([r], z3.And(o.cnt(Nl, r) > 0, ch(o, r, x) > 0)), trav(o, x, a))), [h.cnt(S, x)])),
+            ('nodup', z3.Implies(FA([x], o.cnt(S, x) <= 1, [o.cnt(S, x)]), FA([x], h.cnt(S, x) <= 1, [h.cnt(S, x)]))),
+        ]
+
+    def trav_hint_upd(c):
+        h0 = c.extra['caller_h0']
+        S = c.extra['ex'].args['current_attack_surface'].t
+        p = A('p!tu')
+        P = h0.f('parents', c.node)
+        G = c.extra['ex'].ghosts['G']
+        return [('node-in-G', is_node(h0, G, c.node)),
+                ('parents-not-S', P != S),
+                ('parents-same', c.old.bagof(P) == h0.bagof(P)),
+                ('cb-same', FA([p], z3.Implies(pa(h0, c.node, p) > 0, c.old.bagof(h0.f('compromised_by', p)) == h0.bagof(h0.f('compromised_by', p))),
+                               [pa(h0, c.node, p)])),
+                ('trav-frame', trav(c.old, c.node, c.attacker) == trav(h0, c.node, c.attacker))]
+
+    reg.add(Contract(MQ + ':update_attack_surface_add_nodes',
+                     {'attacker': Obj(ATT), 'current_attack_surface': List(Obj(NODE)), 'nodes': List(Obj(NODE))},
+                     returns=List(Obj(NODE)), ghosts={'G': Addr}, requires=upd_requires, ensures=upd_ensures,
+                     modifies=LIST_ARRAYS, loops={0: LoopSpec(upd_inv(False)), 1: LoopSpec(upd_inv(True))},
+                     call_lemmas={'is_node_traversable_by_attacker': trav_hint_upd}, props=('C12',)))
+
+    # ---- get_defense_surface / get_enabled_defenses
+    from .c_node_attacker import MN
+
+    def def_ensures(want):
+        def ens(c):
+            o, h, G = c.old, c.h, c.graph
+            R = c.res
+            x = A('x!d')
+            st = lambda n: o.f('defense_status', n)
+            is_one = lambda n: z3.Or(z3.And(is_VReal(st(n)), v_r(st(n)) == 1), z3.And(is_VInt(st(n)), v_i(st(n)) == 1))
+            sup = lambda n: o.bag(o.f('tags', n), VStr(str_const('suppress'))) > 0
+            sel = lambda n: z3.And(o.f('type', n) == str_const('defense'), z3.Not(sup(n)), is_one(n) if want else z3.Not(is_one(n)))
+            return [('fresh', R >= o.alloc),
+                    ('members', FA([x], h.cnt(R, x) == z3.If(z3.And(is_node(o, G, x), sel(x)), o.cnt(nodes_l(o, G), x), 0), [h.cnt(R, x)])),
+                    ('old-lists', old_lists_unchanged(c))]
+        return ens
+    for fn, want in (('get_defense_surface', False), ('get_enabled_defenses', True)):
+        reg.add(Contract(MQ + ':' + fn, {'graph': Obj(GRAPH)}, returns=List(Obj(NODE)), ensures=def_ensures(want),
+                         modifies=LIST_ARRAYS + ('cls', 'own_obj'), allocates=True, props=('C12',)))
+
+    # ---- lemma INC: extending a previously computed surface == recomputing it (over the two contracts' posts)
+    def lemma_inc(reg):
+        h1 = H.fresh(reg.schema, 'inc1')
+        h2 = H.fresh(reg.schema, 'inc2')
+        G, a = z3.Const('G!inc', Addr), z3.Const('a!inc', Addr)
+        Sbag = z3.Const('S!inc', BagSort)           # bag of the surface computed in state 1 (get_attack_surface post)
+        Ubag = z3.Const('U!inc', BagSort)           # bag after update_attack_surface_add_nodes in state 2
+        Nbag = z3.Const('N!inc', BagSort)           # the newly compromised nodes
+        x, r, p, b = A('x!inc'), A('r!inc'), A('p!inc'), A('b!inc')
+        inN = lambda n: z3.Select(Nbag, VRef(n)) > 0
+        hyps = [f for _, f in wf_graph(h1, G, parts=('W0', 'W3'))] + [f for _, f in wf_graph(h2, G, parts=('W0', 'W3'))] + [
+            is_att(h1, G, a), is_att(h2, G, a),
+            # state 2 = state 1 after the attacker compromised exactly the nodes N (Attacker.compromise posts):
+            FA([x], is_node(h2, G, x) == is_node(h1, G, x), [is_node(h2, G, x)]),
+            h2.arr['f_is_viable'] == h1.arr['f_is_viable'], h2.arr['f_is_necessary'] == h1.arr['f_is_necessary'],
+            h2.arr['f_type'] == h1.arr['f_type'],
+            FA([x, p], z3.Implies(is_node(h1, G, x), pa(h2, x, p) == pa(h1, x, p)), [pa(h2, x, p), pa(h1, x, p)]),
+            FA([x, p], z3.Implies(is_node(h1, G, x), ch(h2, x, p) == ch(h1, x, p)), [ch(h2, x, p), ch(h1, x, p)]),
+            FA([x], z3.Implies(reached(h2, a, x) > 0, is_node(h1, G, x)), [reached(h2, a, x)]),
+            FA([x], z3.Implies(is_node(h1, G, x), (reached(h2, a, x) > 0) == z3.Or(reached(h1, a, x) > 0, inN(x))), [reached(h2, a, x)]),
+            FA([x], z3.Implies(is_node(h1, G, x), (cb(h2, x, a) > 0) == z3.Or(cb(h1, x, a) > 0, inN(x))), [cb(h2, x, a), cb(h1, x, a)]),
+            FA([x], z3.Implies(inN(x), is_node(h1, G, x)), [z3.Select(Nbag, VRef(x))]),
+            FA([x], z3.Implies(reached(h1, a, x) > 0, is_node(h1, G, x)), [reached(h1, a, x)]),
+            # S is the surface of state 1 (post of get_attack_surface)
+            FA([x], (z3.Select(Sbag, VRef(x)) > 0) == z3.And(z3.Exists([r], z3.And(reached(h1, a, r) > 0, ch(h1, r, x) > 0)), trav(h1, x, a)),
+               [z3.Select(Sbag, VRef(x))]),
+            # U is the post of update_attack_surface_add_nodes(a, S, N) in state 2
+            FA([x], (z3.Select(Ubag, VRef(x)) > 0) == z3.Or(z3.Select(Sbag, VRef(x)) > 0, z3.And(
+                z3.Exists([r], z3.And(inN(r), ch(h2, r, x) > 0)), trav(h2, x, a))), [z3.Select(Ubag, VRef(x))]),
+        ]
+        xs = z3.Const('xs!inc', Addr)
+        recomputed = z3.And(z3.Exists([r], z3.And(reached(h2, a, r) > 0, ch(h2, r, xs) > 0)), trav(h2, xs, a))
+        return [('sound', hyps + [z3.Select(Ubag, VRef(xs)) > 0], recomputed),
+                ('complete', hyps + [recomputed], z3.Select(Ubag, VRef(xs)) > 0)]
+    reg.add_lemma('INC.incremental-surface-equals-recomputed', ('C12',), lemma_inc)
+
+
+_install0 = install
+
+
+def install(reg: Registry):
+    _install0(reg)
+    install_more(reg)
